@@ -104,6 +104,7 @@ MStep(pk, n, m, e) ==
          \* C15: never escapes ServeHTTP when a Recovery frame is below the panic
          IF m.pan /\ d = 0 /\ ~HasRec(pk, m.stk) THEN [m EXCEPT !.pan = FALSE, !.escaped = TRUE, !.pend = "no"]
          ELSE Bad(m, "panic escaped ServeHTTP although Recovery was installed before it")
+    [] e.e = "hang" -> Bad(m, "ServeHTTP did not return")     \* the harness gave up waiting (C07 / C15: serving returns)
     [] e.e = "end" ->
          IF ~m.pan /\ d = 0 /\ (m.pend \in {"no", "may"} \/ (m.pend = "stopped" /\ m.lastp1 = 0)) /\ (m.escaped \/ (e.status = m.code /\ (IF m.head THEN e.body = <<>> ELSE e.body = m.body)))
          THEN [m EXCEPT !.pend = "done"]
